@@ -161,6 +161,7 @@ func (con *Connection) Write(b []byte) (int, error) {
 	}
 
 	n, err := con.connection.Write(b)
+	verifhook.At("conn.write.written")
 
 	// The response which finishes pair verify is sent unencrypted.
 	// All following data is encrypted.
